@@ -141,6 +141,10 @@ def gen_digit_placement(ch):
 
 
 def shard(ctx):
+    # marks on ring-closure bonds whose ring span needs 1, 2 or 3 index symbols
+    for j, (name, smi) in enumerate(RTM.long_index_ladder(ctx.tier)):
+        if "mark" in name and j % ctx.nshards == ctx.shard:
+            ctx.check(dict(table={"?": 8}, smiles=smi, truth=RTM.truth_from_reading(smi), source="template"))
     ctx.drive("main", gen_case, ctx.n(2000, 30000), max_bytes=800)
     ctx.drive("ringy", gen_ringy, ctx.n(1500, 25000), max_bytes=400)
     ctx.drive("digit_placement", gen_digit_placement, ctx.n(1500, 20000), max_bytes=500)
